@@ -39,6 +39,7 @@ EXCLUSIONS = [
     ('MySQLHandshakeV10', 'auth_plugin_data=bytes:*', 'auth-plugin-data-part-1 is exactly 8 bytes (HandshakeV10)'),
     ('MySQLHandshakeV10', 'character_set=None', 'HandshakeV10 always carries the character set octet'),
     ('MySQLHandshakeV10', 'server_version=str:nonascii', 'NUL-terminated ASCII string'),
+    ('MySQLHandshakeV10', 'server_version=str:nul', 'string<NUL>: the value cannot contain the terminator'),
     ('MySQLHandshakeV10', 'auth_plugin_name=*', 'present exactly when CLIENT_PLUGIN_AUTH is set'),
     ('MySQLHandshakeV10', 'auth_plugin_data_2=*', 'present exactly when CLIENT_PLUGIN_AUTH is set; length tied to '
                                                    'auth_plugin_data_len'),
